@@ -197,7 +197,7 @@ func ruleC11Loader(p *Prog, a *Anchors, r *Report) {
 				any := false
 				ReturnsFrom(s, func(ret *ssa.Return) {
 					any = true
-					if !definitelyNonNil(ret.Results[ei], 0) {
+					if !definitelyNonNil(res(ret, ei), 0) {
 						all = false
 					}
 				})
@@ -433,7 +433,7 @@ func ruleC11Only(p *Prog, a *Anchors, r *Report) {
 			// on the err != nil side, every success return must be guarded by both conditions
 			ei := errorResultIndex(fn)
 			for _, ret := range returnsOf(fn) {
-				if ei < 0 || !isNilConst(ret.Results[ei]) {
+				if ei < 0 || !isNilConst(res(ret, ei)) {
 					continue
 				}
 				// is this return on the error side of the FromFile call?
